@@ -348,6 +348,9 @@ func (f *spyFile) WriteString(s string) (int, error) {
 
 func (f *spyFile) Close() error {
 	if _, err := f.spy.rec("close", f.name); err != nil {
+		if err == errWriteback {
+			_ = f.File.Truncate(0) // the written data never reached the disk (fails harmlessly on a read-only handle)
+		}
 		_ = f.File.Close() // do not leak the descriptor; the caller sees the injected error
 		return err
 	}
